@@ -16,7 +16,7 @@
 (*        Live_C08_Ends     every resolution ends whatever fails           *)
 (*        Inv_C08_Supplied  nothing returned that nobody supplied          *)
 (*   C18  Inv_C18_Family    address family and lookup order                *)
-(*   C01/C10 on the way     Inv_C10_Chain                                  *)
+(*   C01/C10 on the way     Inv_C01_Local, Inv_C10_Chain                   *)
 (***************************************************************************)
 EXTENDS Recursive, Universe, Json, IOUtils, TLC
 
@@ -37,20 +37,21 @@ ProtocolCfg == Cfg.protocol
 Questions == { [name |-> q.name, type |-> q.type] : q \in SeqRange(Cfg.questions) }
 ExpectTruth == Cfg.expect_truth
 
-VARIABLES asked, faults, qfaults, forgets
-vars == <<env, now, cache, stack, ret, cur, asked, faults, qfaults, forgets>>
+VARIABLES asked, faults, qfaults, forgets,
+          qex      \* upstream exchanges of the current question so far (0, 1, 2 = two or more)
+vars == <<env, now, cache, stack, ret, cur, asked, faults, qfaults, forgets, qex>>
 
 Init ==
     /\ env = [local |-> LocalZones, protocol |-> ProtocolCfg, mode |-> Cfg.mode, forwarder |-> "10.9.9.9"]
     /\ now = 0 /\ cache = {} /\ stack = <<>> /\ ret = NoRet /\ cur = NoQ
-    /\ asked = 0 /\ faults = 0 /\ qfaults = 0 /\ forgets = 0
+    /\ asked = 0 /\ faults = 0 /\ qfaults = 0 /\ forgets = 0 /\ qex = 0
 
 AskStep ==
     /\ asked < MaxAsk
     /\ \E q \in Questions : Ask(q)
-    /\ asked' = asked + 1 /\ qfaults' = 0 /\ UNCHANGED <<faults, forgets>>
+    /\ asked' = asked + 1 /\ qfaults' = 0 /\ qex' = 0 /\ UNCHANGED <<faults, forgets>>
 
-InternalStep == Internal /\ UNCHANGED <<asked, faults, qfaults, forgets>>
+InternalStep == Internal /\ UNCHANGED <<asked, faults, qfaults, forgets, qex>>
 
 \* the upstream: the universe's server at that address answers, or the attempt fails
 ExchangeStep ==
@@ -61,13 +62,14 @@ ExchangeStep ==
        \/ /\ faults < MaxFaults
           /\ Exchange(Top.pc = "tcp", FALSE, Refused, now)
           /\ faults' = faults + 1 /\ qfaults' = qfaults + 1
+    /\ qex' = IF qex < 2 THEN qex + 1 ELSE 2
     /\ UNCHANGED <<asked, forgets>>
 
 ForgetStep ==
     /\ forgets < MaxForget
     /\ \/ \E r \in cache : Forget(r.name, r.type)
        \/ ForgetAddrs
-    /\ forgets' = forgets + 1 /\ UNCHANGED <<asked, faults, qfaults>>
+    /\ forgets' = forgets + 1 /\ UNCHANGED <<asked, faults, qfaults, qex>>
 
 Next == (AskStep \/ InternalStep \/ ExchangeStep \/ ForgetStep) /\ UNCHANGED <<env, now>>
 Spec == Init /\ [][Next]_vars /\ WF_vars(Next)
@@ -87,6 +89,28 @@ Inv_C07_Truth ==
           \* (forwarding passes the SOA of a negative answer on only when the answer section is empty: behind an
           \* alias it is dropped - observation O2 in DESIGN.md; C07 is stated for recursive resolution)
           /\ (t.negative /\ (env.mode = "recursive" \/ t.rrs = <<>>)) => KeyOf(ret.res.soa) = KeyOf(t.soa)
+
+\* C01 in recursive / forwarding mode: whatever the upstream says and whatever is cached, local data wins
+\* (configurations with authoritative local zones and overrides next to the hints; the universes given to this
+\* invariant hold no alias INTO a locally owned name - that is known finding F13)
+Inv_C01_Local ==
+    Finished =>
+        LET res == IF ret.ok THEN ret.res ELSE Res("Err", <<>>, NoRR, ret.res.err) IN
+        /\ AuthOwns(Local, cur, res, qex)
+        /\ Override(Local, cur, res, qex)
+        /\ Provenance(Local, res)
+        /\ NameErrorOnlyAuth(Local, cur, res)
+        /\ ChainEndOwned(Local, cur, res)
+
+\* ... and no upstream server is asked about a name an authoritative local zone owns
+Inv_C01_NotAsked ==
+    \A i \in DOMAIN stack :
+        (stack[i].kind \in {"R", "F"} /\ stack[i].pc \in {"udp", "tcp"}) => AskedUpstreamOK(Local, stack[i].q.name, stack[i].q.type)
+
+\* anti-vacuity: which code locations and which outcomes the exploration reached (the driver demands all of them)
+Inv_Witness ==
+    /\ stack # <<>> => PrintT(<<"PC", Top.kind, Top.pc, Top.locally>>)
+    /\ ret.has => PrintT(<<"OUT", ret.ok, ret.res.kind, ret.res.err>>)
 
 Act_C07_Closer == [][CloserStep]_vars
 
